@@ -2,13 +2,17 @@
 
 package balloon
 
-// Contracts for the verifier in /verif (comment-only).
+// Contracts for the verifier in /verif (comment-only; see /verif/DESIGN.md).
 
 /*@
+// The digest a client checks is its own hash of the event: an API-level
+// precondition bounds its length relative to the version bytes carried by the
+// hyper proof (util.AddPaddingToBytes is only total under that relation).
 func MembershipProof.DigestVerify
   props C02 C12
   requires snapshot != nil
-  requires p.HistoryProof != nil ==> !isnil(p.HistoryProof.hasher)
+  requires len(digest) < 8192
+  requires p.HyperProof != nil ==> len(p.HyperProof.Value) <= len(digest) || len(p.HyperProof.Value) >= 8 * len(digest)
   modifies everything
   ensures C02/accept-implies-exists-and-ordered: result ==> p.Exists && p.ActualVersion <= p.QueryVersion
   ensures C02/accept-implies-parts: result ==> p.HyperProof != nil && p.HistoryProof != nil
